@@ -1,5 +1,6 @@
 """Direction A for spec/mc/MC_Export.tla: exports (C19) and plots (C20)."""
 
+import json
 import os
 import pickle
 import shutil
@@ -17,6 +18,13 @@ DIMOBJ = {
     "e": Dimension(name="Element", letter="e", items=["Fe", "Cu"], dtype=str),
 }
 DIMS = DimensionSet(dim_list=[DIMOBJ[l] for l in CANON])
+# the same letters, names and lengths with OTHER items: every third vector is replayed a second time on these, in the
+# same process (nothing remembered from an earlier export / plot may leak into a later one)
+DIMSETS = [DIMOBJ, {
+    "t": Dimension(name="Time", letter="t", items=[1990, 2005], dtype=int),
+    "r": Dimension(name="Region", letter="r", items=["west", "east", "centre"], dtype=str),
+    "e": Dimension(name="Element", letter="e", items=["Al", "Zn"], dtype=str),
+}]
 
 
 def gsum(g, letters, idx):
@@ -478,4 +486,15 @@ def run_large_export(case):
 
 
 def run_vector(vec):
-    return {"export": run_export, "sankey": run_sankey, "lines": run_lines}[vec["op"]](vec)
+    global DIMOBJ, DIMS
+    fn = {"export": run_export, "sankey": run_sankey, "lines": run_lines}[vec["op"]]
+    problems = fn(vec)
+    if not problems and len(json.dumps(vec, sort_keys=True)) % 3 == 0:
+        DIMOBJ = DIMSETS[1]
+        DIMS = DimensionSet(dim_list=[DIMOBJ[l] for l in CANON])
+        try:
+            problems = ["[same letters, names and lengths, other items] " + p for p in fn(vec)]
+        finally:
+            DIMOBJ = DIMSETS[0]
+            DIMS = DimensionSet(dim_list=[DIMOBJ[l] for l in CANON])
+    return problems
